@@ -2,8 +2,8 @@
    (engine `distances`, C13): the rounds come from `Hw.Grouping.rounds` (model of `hwloc__groups_by_distances`), every Group
    of every round is pushed through the model of `hwloc_topology_insert_group_object` (`Hw.Topo.Ins.insertGroup`, the one the
    C02 engine uses) on the tree of the dump taken BEFORE the commit; the predicted tree is compared with the tree of the dump
-   taken AFTER the commit, and the after-dump is judged by the C01 oracle. -/
-import Hw.Attr.GroupingSets
+   taken AFTER the commit, and the after-dump is judged by the C01 oracle.  The composition itself is `Hw.Grouping.walk`. -/
+import Hw.Attr.GroupingWalk
 import Driver.Topo
 namespace Driver.GroupingEng
 open Hw.Topo Driver
@@ -52,39 +52,7 @@ where nodesetL (d : Dump) : List Ins.T → Nat
   | [] => 0
   | c :: cs => nodesetOf d c ||| nodesetL d cs
 
-structure Walk where
-  tree : Ins.T
-  inserted : List Nat := []     -- placeholder gp_index values of the Groups really inserted, in insertion order
-  failed : Bool := false
-  notes : List String := []
-
 def PLACEHOLDER : Nat := 1099511627776
-
-/-- one `hwloc_topology_insert_group_object` of the grouping code on the current predicted tree -/
-def insertOne (d : Dump) (root : Obj) (numas : List (Nat × Nat)) (subkind : Nat) (w : Walk) (newGp key : Nat) : Walk :=
-  let a : Ins.GArgs := { cpuset := some key, nodeset := none, dm := false, kind := Hw.Grouping.GROUP_KIND_DISTANCE, subkind := subkind }
-  match Ins.insertGroup ((d.filters[tGROUP]?).getD 0) (cs root) (nsOf root) numas w.tree newGp a with
-  | .einval => { w with failed := true }
-  | .mergedRoot => w
-  | .core _ (.inserted t) => { w with tree := Ins.fixOrder newGp t, inserted := w.inserted ++ [newGp] }
-  | .core _ (.merged t g) =>
-    let isGroup := (Ins.objsT w.tree).any (fun o => o.gp == g && o.type == tGROUP)
-    { w with tree := if isGroup then Ins.fixOrder g t else t }
-  | .core _ (.failed t) => { w with tree := t, failed := true }
-  | .core _ .stuck => { w with failed := true, notes := w.notes ++ ["group-model-stuck"] }
-
-/-- the rounds of `hwloc__groups_by_distances`, cut after the first round with a failed insertion; returns the walk and the
-number of rounds that created Groups (`grouping_next_subkind` advances by that much) -/
-def runRounds (d : Dump) (root : Obj) (numas : List (Nat × Nat)) :
-    List Hw.Grouping.Round → (sets : Nat → Nat) → (subkind base : Nat) → Walk → Walk × Nat
-  | [], _, subkind, _, w => (w, subkind)
-  | r :: rs, sets, subkind, base, w =>
-    -- the Group objects of this round as the model builds them (`Hw.Grouping.roundObjs`: key = union of the members' cpusets)
-    let objs := Hw.Grouping.roundObjs sets r subkind (PLACEHOLDER + base)
-    let keys := objs.map (·.key)
-    let w' := objs.foldl (fun w o => insertOne d root numas o.subkind w o.gp o.key) w
-    if w'.failed then (w', subkind + 1)
-    else runRounds d root numas rs (fun g => keys.getD g 0) (subkind + 1) (base + r.nb) w'
 
 structure Outcome where
   text : String            -- what the harness prints after "ok" when everything is as predicted
@@ -102,20 +70,25 @@ def predict (before after : Dump) (n : Nat) (gps : List Nat) (vals : List Nat) (
     let rs := if hetero then [] else Hw.Grouping.rounds kind n n M true
     let numas := (before.objs.filter (fun o => o.type == tNUMA)).map (fun o => (o.osidx.toNat, cs o))
     let t0 := treeOf before
-    let (w, sk) := runRounds before root numas rs sets0 subkind 0 { tree := t0 }
+    -- the model of the whole commit: rounds, Group objects, insertions (`Hw.Grouping.walk`, proved to keep the tree laminar)
+    let env : Hw.Grouping.GEnv := ⟨(before.filters[tGROUP]?).getD 0, cs root, nsOf root, numas⟩
+    let (tree, sk) := Hw.Grouping.walk env rs sets0 subkind PLACEHOLDER t0
+    -- the Groups really inserted: the placeholder gp_index values present in the final tree, in creation order
+    let total := rs.foldl (fun a r => a + r.nb) 0
+    let inserted := ((List.range total).map (PLACEHOLDER + ·)).filter (fun g => (Ins.objsT tree).any (fun o => o.gp == g))
     -- the Groups that appeared: objects of the after-dump whose gp_index the before-dump does not have, by gp_index
     let newObjs := (after.objs.filter (fun o => !(before.objs.any (fun p => p.gp == o.gp)))).toArray.qsort (fun a b => a.gp < b.gp) |>.toList
     let newGps := newObjs.map (·.gp)
-    let relabel (g : Nat) : Nat := match w.inserted.idxOf? g with | some i => newGps.getD i g | none => g
-    let pred := mapGp relabel w.tree
-    let groupsTxt := w.inserted.foldl (fun s g =>
-      match findT g w.tree with
+    let relabel (g : Nat) : Nat := match inserted.idxOf? g with | some i => newGps.getD i g | none => g
+    let pred := mapGp relabel tree
+    let groupsTxt := inserted.foldl (fun s g =>
+      match findT g tree with
       | some (.node o kids) => s ++ " G " ++ toHex o.key ++ " " ++ toHex (nodesetOf before (.node o kids)) ++ " " ++ toString o.kind ++ " " ++ toString o.subkind
       | none => s ++ " G lost") ""
     let judge : List String :=
-      (if Ins.lamB t0 then [] else ["group-precondition-tree-not-laminar"]) ++ w.notes ++
+      (if Ins.lamB t0 then [] else ["group-precondition-tree-not-laminar"]) ++
       (if newObjs.all (fun o => o.type == tGROUP) then [] else ["new-object-not-a-Group"]) ++
-      (if newGps.length == w.inserted.length then [] else ["group-count-differs:model=" ++ toString w.inserted.length ++ ",C=" ++ toString newGps.length]) ++
+      (if newGps.length == inserted.length then [] else ["group-count-differs:model=" ++ toString inserted.length ++ ",C=" ++ toString newGps.length]) ++
       (if Ins.rows 0 pred == Ins.rows 0 (treeOf after) then [] else ["tree-after-grouping-differs-from-model"]) ++
       (let wf := wfCheck after ++ Hw.Topo.Restrict.renderCheck after ++ Hw.Topo.Sym.symCheck after
        if wf.isEmpty then [] else ["C01:" ++ ",".intercalate (wf.take 4)])
